@@ -3,6 +3,7 @@ package handshake
 import (
 	"context"
 	"fmt"
+	"sync"
 
 	"github.com/anyproto/any-sync/accountservice"
 	"github.com/anyproto/any-sync/app"
@@ -24,14 +25,29 @@ func (a *acctStub) Account() *accountdata.AccountKeys { return a.keys }
 
 type ncStub struct {
 	nodeconf.Service
+	mu    sync.Mutex
 	types map[string][]nodeconf.NodeType
 }
 
-func (n *ncStub) Init(*app.App) error                         { return nil }
-func (n *ncStub) Name() string                                { return nodeconf.CName }
-func (n *ncStub) Run(context.Context) error                   { return nil }
-func (n *ncStub) Close(context.Context) error                 { return nil }
-func (n *ncStub) NodeTypes(nodeId string) []nodeconf.NodeType { return n.types[nodeId] }
+func (n *ncStub) set(id string, t []nodeconf.NodeType) {
+	n.mu.Lock()
+	defer n.mu.Unlock()
+	if t == nil {
+		delete(n.types, id)
+	} else {
+		n.types[id] = t
+	}
+}
+
+func (n *ncStub) Init(*app.App) error         { return nil }
+func (n *ncStub) Name() string                { return nodeconf.CName }
+func (n *ncStub) Run(context.Context) error   { return nil }
+func (n *ncStub) Close(context.Context) error { return nil }
+func (n *ncStub) NodeTypes(nodeId string) []nodeconf.NodeType {
+	n.mu.Lock()
+	defer n.mu.Unlock()
+	return n.types[nodeId]
+}
 
 type confStub struct{ c secureservice.Config }
 
@@ -50,38 +66,58 @@ func serviceable(c sideCfg) bool {
 	return len(c.compat) > 0 && contains(c.compat, c.ver) && c.client != ""
 }
 
-// prepareService builds and starts the service synchronously (secureservice.ProtoVersion is a
-// package variable read by Init) and returns the handshake call to run on the side's goroutine.
+type liveService struct {
+	svc secureservice.SecureService
+	nc  *ncStub
+}
+
+// prepareService returns the handshake call to run on the side's goroutine. The secure service of a
+// node is long-lived: one instance (built through app.App) per node configuration serves every
+// connection of that node, as in a running process. Construction is synchronous
+// (secureservice.ProtoVersion is a package variable read by Init).
 func (w *world) prepareService(c sideCfg, s *sideRun, mode svcMode) func() (hs.Result, error) {
 	a := w.accts[c.acct].keys
-	nc := &ncStub{types: map[string][]nodeconf.NodeType{}}
-	conf := secureservice.Config{CompatibleVersions: c.compat}
 	ctx := s.ctx
-	if c.verify {
-		switch {
-		case c.role == "in" && mode.viaNodeconf:
+	inboundVerify, inboundViaNC := c.role == "in" && c.verify, c.role == "in" && c.verify && mode.viaNodeconf
+	key := fmt.Sprintf("%s|%d|%s|%d|%v|%s|%v|%v", c.role, c.acct, c.lp, c.ver, c.compat, c.client, inboundVerify, inboundViaNC)
+	w.chkMu.Lock()
+	ls, ok := w.services[key]
+	if !ok {
+		nc := &ncStub{types: map[string][]nodeconf.NodeType{}}
+		conf := secureservice.Config{CompatibleVersions: c.compat}
+		if inboundViaNC {
 			nc.types[c.lp] = []nodeconf.NodeType{nodeconf.NodeTypeTree}
-		case c.role == "in":
+		} else if inboundVerify {
 			conf.RequireClientAuth = true
-		case mode.viaNodeconf:
-			nc.types[c.rp] = []nodeconf.NodeType{nodeconf.NodeTypeTree}
-		default:
+		}
+		secureservice.ProtoVersion = c.ver
+		ap := new(app.App)
+		ap.SetVersionName(c.client)
+		svc := secureservice.New()
+		ap.Register(&acctStub{keys: &accountdata.AccountKeys{PeerKey: a.PeerKey, SignKey: a.SignKey, PeerId: c.lp}}).
+			Register(&confStub{c: conf}).Register(nc).Register(svc)
+		if err := ap.Start(context.Background()); err != nil {
+			w.chkMu.Unlock()
+			w.r.Fatal("secure service does not start: " + err.Error())
+		}
+		ls = &liveService{svc: svc, nc: nc}
+		w.services[key] = ls
+		w.r.Count("service.new")
+	} else {
+		w.r.Count("service.reused")
+	}
+	w.chkMu.Unlock()
+	if c.role == "out" && c.verify {
+		if mode.viaNodeconf {
+			ls.nc.set(c.rp, []nodeconf.NodeType{nodeconf.NodeTypeTree})
+		} else {
+			ls.nc.set(c.rp, nil)
 			ctx = secureservice.CtxAllowAccountCheck(ctx)
 		}
+	} else if c.role == "out" {
+		ls.nc.set(c.rp, nil)
 	}
-	secureservice.ProtoVersion = c.ver
-	ap := new(app.App)
-	ap.SetVersionName(c.client)
-	svc := secureservice.New()
-	ap.Register(&acctStub{keys: &accountdata.AccountKeys{PeerKey: a.PeerKey, SignKey: a.SignKey, PeerId: c.lp}}).
-		Register(&confStub{c: conf}).Register(nc).Register(svc)
-	if err := ap.Start(context.Background()); err != nil {
-		w.r.Fatal("secure service does not start: " + err.Error())
-	}
-	return func() (hs.Result, error) {
-		defer ap.Close(context.Background())
-		return w.callService(svc, ctx, c, s)
-	}
+	return func() (hs.Result, error) { return w.callService(ls.svc, ctx, c, s) }
 }
 
 func (w *world) callService(svc secureservice.SecureService, ctx context.Context, c sideCfg, s *sideRun) (hs.Result, error) {
